@@ -59,21 +59,35 @@ fn reach(c: &Cell) -> Solo {
     let clean = c.flag != Flag::Persistent;
     // a client object created with an undetermined version can never connect
     let undet_client = c.ver == Ver::Undet && c.as_client;
+    // session state that a wrongly processed packet could disturb: an inbound QoS 2 message
+    // that was notified (handled id 1, unanswered) and an outbound QoS 1 message in flight
+    let prime = |s: &mut Solo| {
+        s.exec(&Op::PeerPub { qos: 2, id: 1, dup: false, topic: 0, alias: 0, pad: 0 });
+        s.exec(&Op::Pub { qos: 1, topic: 0, alias: 0, pad: 0, fail: false });
+    };
     match c.status {
         St::Disc => {
             if c.flag == Flag::Persistent && !undet_client {
                 // a persistent session exists only after a connection
                 s.exec(&Op::Connect { clean: false });
                 s.exec(&Op::Connack { sp: false, rc: 0 });
+                prime(&mut s);
                 s.exec(&Op::Close { partial: 0 });
             }
         }
         St::Connecting => {
+            if c.flag == Flag::Persistent && !undet_client {
+                s.exec(&Op::Connect { clean: false });
+                s.exec(&Op::Connack { sp: false, rc: 0 });
+                prime(&mut s);
+                s.exec(&Op::Close { partial: 0 });
+            }
             s.exec(&Op::Connect { clean });
         }
         St::Connected => {
             s.exec(&Op::Connect { clean });
             s.exec(&Op::Connack { sp: false, rc: 0 });
+            prime(&mut s);
         }
     }
     s
@@ -104,6 +118,11 @@ pub fn rep_packets() -> Vec<Pkt> {
                         v.push(x);
                     }
                     continue;
+                }
+                PUBACK | PUBREC if pv == 5 => {
+                    // plain and with a failure reason code
+                    v.push(p.clone());
+                    p.rc = Some(0x80);
                 }
                 SUBSCRIBE => p.filters = vec![("a".into(), 0)],
                 UNSUBSCRIBE => p.filters = vec![("a".into(), 0)],
@@ -426,7 +445,7 @@ pub fn check_compile_time() -> Option<Violation> {
                 _ => St::Connected,
             };
             let reps = rep_packets();
-            let k = reps.iter().position(|r| r.v == p.v && r.kind == p.kind).unwrap();
+            let k = reps.iter().position(|r| r.v == p.v && r.kind == p.kind && r.rc.is_none()).or_else(|| reps.iter().position(|r| r.v == p.v && r.kind == p.kind)).unwrap();
             let cell = Cell { role: *role, as_client, ver: if p.v == 4 { Ver::V4 } else { Ver::V5 }, wire_v: p.v, status, flag: Flag::None, k };
             let r = run_c11_cell(&cell);
             if let Some(v) = r.viol {
